@@ -171,18 +171,13 @@ Section Exit.
     - split; [discriminate|]. intros [_ [i [s [q [H1 _]]]]]. discriminate.
   Qed.
 
-  (* exit 0 => exactly one object, in the place -o selects; otherwise no object — except the
-     no-script + -o corner (known finding F34), where `{}` is written although the exit is 1 *)
-  Definition known_noscript_outfile (m : mode) (of : bool) : bool :=
-    match m with MNoScript => of | _ => false end.
-
+  (* exit 0 => exactly one object, in the place -o selects; any other exit => no object at all *)
   Theorem exit0_one_object_else_none : forall m of stdin flags prog,
-    known_noscript_outfile m of = false ->
     let r := cli_run eval m of stdin flags prog in
     (cr_exit r = Some 0 /\ exists o, one_object of r o) \/
     (cr_exit r <> Some 0 /\ no_object r).
   Proof.
-    intros m of stdin flags prog Hk. cbv zeta. unfold cli_run.
+    intros m of stdin flags prog. cbv zeta. unfold cli_run.
     destruct (read_inputs _ flags) as [[inputs|] st].
     - destruct m.
       + destruct prog as [p|].
@@ -197,31 +192,8 @@ Section Exit.
         * destruct (run_script_shape of (cli_session st inputs) p) as [[H1 H2]|H]; [left|right; exact H].
           split; [exact H1|eexists; exact H2].
         * right. split; [discriminate|split; reflexivity].
-      + right. cbn in Hk. subst of. split; [discriminate|split; reflexivity].
+      + right. split; [discriminate|split; reflexivity].
     - right. split; [discriminate|split; reflexivity].
-  Qed.
-
-  (* the refutation behind F34 *)
-  Lemma noscript_outfile_refuted : forall stdin,
-    let r := cli_run eval MNoScript true stdin [] None in
-    cr_exit r = Some 1 /\ cr_file r = Some [] \/ cr_exit r = Some 1 /\ stdin <> None.
-  Proof.
-    intros stdin. cbv zeta. unfold cli_run.
-    destruct (read_inputs stdin []) as [[inputs|] st] eqn:R.
-    - left. split; reflexivity.
-    - right. split; [reflexivity|]. destruct stdin; [discriminate|]. cbn in R. discriminate.
-  Qed.
-
-  (* the repaired driver (F34 fixed): no exclusion *)
-  Theorem exit0_one_object_else_none_fixed34 : forall m of stdin flags prog,
-    let r := cli_run_fixed34 eval m of stdin flags prog in
-    (cr_exit r = Some 0 /\ exists o, one_object of r o) \/
-    (cr_exit r <> Some 0 /\ no_object r).
-  Proof.
-    intros m of stdin flags prog. cbv zeta.
-    destruct m; cbn [cli_run_fixed34];
-      try (apply exit0_one_object_else_none; reflexivity).
-    right. split; [discriminate|split; reflexivity].
   Qed.
 End Exit.
 
@@ -328,28 +300,22 @@ Section Outputs.
     - eapply ext_lookup; eauto.
   Qed.
 
-  (* a successful output declaration of a binding: what exec_stmt does.  (Stated without
-     restating Program.exec_stmt's `decl`, so that it survives the repair of F33 there.) *)
+  (* a successful output declaration: the declared name receives the value the statement
+     evaluated to (repo fix 91678e3: also for the `output x` form) *)
   Lemma exec_stmt_SOut_ok : forall s e w st1 fr1,
-    eval (s_cfg s) e = (Ok w, (st1, fr1)) -> binding_decl (SOut e) = true ->
-    exists x v, decl_name (SOut e) = Some x /\ lookup fr1 x = Some v /\
-      exec_stmt eval s (SOut e) =
-        if validate_portable st1 fr1 v
-        then ({| s_cfg := (st1, fr1); s_outputs := out_insert (s_outputs s) x v |}, ROk w)
-        else ({| s_cfg := (st1, fr1); s_outputs := s_outputs s |}, ROutErr).
+    eval (s_cfg s) e = (Ok w, (st1, fr1)) ->
+    exec_stmt eval s (SOut e) =
+      match decl_name (SOut e) with
+      | Some x =>
+          if validate_portable st1 fr1 w
+          then ({| s_cfg := (st1, fr1); s_outputs := out_insert (s_outputs s) x w |}, ROk w)
+          else ({| s_cfg := (st1, fr1); s_outputs := s_outputs s |}, ROutErr)
+      | None => ({| s_cfg := (st1, fr1); s_outputs := s_outputs s |}, ROk w)
+      end.
   Proof.
-    intros s e w st1 fr1 E Hb. cbn [exec_stmt]. rewrite E.
-    destruct e; cbn [binding_decl] in Hb; try discriminate.
-    - (* EId *) apply negb_true_iff in Hb. pose proof (eval_id _ _ _ _ E Hb) as L. cbn [snd] in L.
-      eexists; eexists; cbn [decl_name]; split; [reflexivity|split; [exact L|try rewrite L; reflexivity]].
-    - (* EAssign *) pose proof (eval_assign _ _ _ _ _ E) as L. cbn [snd] in L.
-      eexists; eexists; cbn [decl_name]; split; [reflexivity|split; [exact L|reflexivity]].
-    - (* EOutput *) pose proof E as E'. rewrite eval_output in E'.
-      destruct e; cbn [binding_decl] in Hb; try discriminate.
-      + apply negb_true_iff in Hb. pose proof (eval_id _ _ _ _ E' Hb) as L. cbn [snd] in L.
-        eexists; eexists; cbn [decl_name]; split; [reflexivity|split; [exact L|try rewrite L; reflexivity]].
-      + pose proof (eval_assign _ _ _ _ _ E') as L. cbn [snd] in L.
-        eexists; eexists; cbn [decl_name]; split; [reflexivity|split; [exact L|reflexivity]].
+    intros s e w st1 fr1 E. cbn [exec_stmt]. rewrite E.
+    destruct e; try reflexivity.
+    all: match goal with |- context [EOutput ?x] => destruct x end; reflexivity.
   Qed.
 
   Lemma exec_stmt_SOut_fail : forall s e o c1,
@@ -363,7 +329,40 @@ Section Outputs.
              end; reflexivity.
   Qed.
 
-  (* one successful statement *)
+  (* for a declaration of a binding the recorded value is the binding *)
+  Lemma decl_binding_lookup : forall c e w st1 fr1 x,
+    eval c e = (Ok w, (st1, fr1)) -> binding_decl (SOut e) = true ->
+    decl_name (SOut e) = Some x -> lookup fr1 x = Some w.
+  Proof.
+    intros c e w st1 fr1 x E Hb Hn.
+    destruct e; cbn [binding_decl] in Hb; try discriminate; cbn [decl_name] in Hn.
+    - apply negb_true_iff in Hb. inversion Hn; subst. exact (eval_id _ _ _ _ E Hb).
+    - inversion Hn; subst. exact (eval_assign _ _ _ _ _ E).
+    - rewrite eval_output in E.
+      destruct e; cbn [binding_decl] in Hb; try discriminate; cbn [decl_name] in Hn.
+      + apply negb_true_iff in Hb. inversion Hn; subst. exact (eval_id _ _ _ _ E Hb).
+      + inversion Hn; subst. exact (eval_assign _ _ _ _ _ E).
+  Qed.
+
+  (* one successful statement: the keys (no side condition) *)
+  Lemma exec_stmt_keys : forall s t,
+    is_rok (snd (exec_stmt eval s t)) = true ->
+    map fst (s_outputs (fst (exec_stmt eval s t))) =
+      match decl_name t with Some x => add_key (map fst (s_outputs s)) x | None => map fst (s_outputs s) end.
+  Proof.
+    intros s t Hok. destruct t as [e|e|].
+    - cbn [exec_stmt]. destruct (eval (s_cfg s) e) as [o c1]. reflexivity.
+    - destruct (eval (s_cfg s) e) as [o [st1 fr1]] eqn:E.
+      destruct o as [w| | | |].
+      2-5: rewrite (exec_stmt_SOut_fail _ _ _ _ E eq_refl) in Hok; discriminate.
+      rewrite (exec_stmt_SOut_ok _ _ _ _ _ E) in *.
+      destruct (decl_name (SOut e)) as [x|]; [|reflexivity].
+      destruct (validate_portable st1 fr1 w); cbn [fst snd is_rok] in Hok; [|discriminate].
+      cbn [fst s_outputs]. apply keys_insert.
+    - reflexivity.
+  Qed.
+
+  (* one successful statement whose declaration (if any) is of a binding *)
   Lemma exec_stmt_outputs : forall s t,
     is_rok (snd (exec_stmt eval s t)) = true -> binding_decl t = true -> outs_bound s ->
     let s' := fst (exec_stmt eval s t) in
@@ -373,61 +372,32 @@ Section Outputs.
     (forall x, decl_name t = Some x ->
        exists v, rec_get (s_outputs s') x = Some v /\ lookup (frames_of s') x = Some v).
   Proof.
-    intros s t Hok Hb Hinv. cbv zeta. unfold outs_bound, frames_of in *.
-    destruct t as [e|e|].
-    - cbn [exec_stmt] in *.
-      destruct (eval (s_cfg s) e) as [o c1] eqn:E. cbn [fst snd s_cfg s_outputs decl_name] in *.
-      apply eval_ext in E. repeat split; auto.
-      + intros x v Hx. eapply ext_lookup; eauto.
-      + intros x Hx; discriminate.
-    - destruct (eval (s_cfg s) e) as [o [st1 fr1]] eqn:E.
-      assert (ext (snd (s_cfg s)) fr1) as Hext by (apply eval_ext in E; exact E).
+    intros s t Hok Hb Hinv. cbv zeta. split; [|split; [apply exec_stmt_keys; exact Hok|]].
+    - unfold outs_bound, frames_of in *. destruct t as [e|e|].
+      + cbn [exec_stmt] in *. destruct (eval (s_cfg s) e) as [o c1] eqn:E.
+        cbn [fst snd s_cfg s_outputs] in *. apply eval_ext in E.
+        intros x v Hx. eapply ext_lookup; eauto.
+      + destruct (eval (s_cfg s) e) as [o [st1 fr1]] eqn:E.
+        assert (ext (snd (s_cfg s)) fr1) as Hext by (apply eval_ext in E; exact E).
+        destruct o as [w| | | |].
+        2-5: rewrite (exec_stmt_SOut_fail _ _ _ _ E eq_refl) in Hok; discriminate.
+        rewrite (exec_stmt_SOut_ok _ _ _ _ _ E) in *.
+        destruct (decl_name (SOut e)) as [x|] eqn:Hn.
+        * destruct (validate_portable st1 fr1 w); cbn [fst snd is_rok] in Hok; [|discriminate].
+          cbn [fst snd s_cfg s_outputs]. unfold out_insert.
+          intros y u Hy. eapply insert_bound; eauto. eapply decl_binding_lookup; eauto.
+        * cbn [fst snd s_cfg s_outputs]. intros y u Hy. eapply ext_lookup; eauto.
+      + cbn [exec_stmt fst]. exact Hinv.
+    - unfold frames_of. destruct t as [e|e|]; cbn [decl_name]; try (intros x Hx; discriminate).
+      destruct (eval (s_cfg s) e) as [o [st1 fr1]] eqn:E.
       destruct o as [w| | | |].
       2-5: rewrite (exec_stmt_SOut_fail _ _ _ _ E eq_refl) in Hok; discriminate.
-      destruct (exec_stmt_SOut_ok _ _ _ _ _ E Hb) as (x & v & Hn & Hl & Hx).
-      rewrite Hx in *. rewrite Hn.
-      destruct (validate_portable st1 fr1 v); cbn [fst snd is_rok] in Hok; [|discriminate].
-      cbn [fst snd s_cfg s_outputs]. unfold out_insert. repeat split.
-      + intros y u Hy. eapply insert_bound; eauto.
-      + apply keys_insert.
-      + intros y Hy. inversion Hy; subst y. exists v. rewrite rec_get_insert, String.eqb_refl. auto.
-    - cbn [exec_stmt fst snd decl_name]. repeat split; auto. intros x Hx; discriminate.
-  Qed.
-
-  (* the repaired statement (F33 fixed): every successful declaration records its name ... *)
-  Lemma exec_stmt_fixed33_records : forall s e x,
-    is_rok (snd (exec_stmt_fixed33 eval s (SOut e))) = true -> decl_name_fixed33 e = Some x ->
-    exists v, fst (eval (s_cfg s) e) = Ok v /\
-      s_outputs (fst (exec_stmt_fixed33 eval s (SOut e))) = rec_insert (s_outputs s) x v /\
-      map fst (s_outputs (fst (exec_stmt_fixed33 eval s (SOut e)))) = add_key (map fst (s_outputs s)) x.
-  Proof.
-    intros s e x Hok Hn. cbn [exec_stmt_fixed33] in *.
-    destruct (eval (s_cfg s) e) as [o [st1 fr1]]. rewrite Hn in *.
-    destruct o as [w| | | |]; cbn [fst snd is_rok] in *; try discriminate.
-    destruct (validate_portable st1 fr1 w); cbn [fst snd is_rok s_outputs] in *; [|discriminate].
-    exists w. unfold out_insert. repeat split. apply keys_insert.
-  Qed.
-
-  (* ... and nothing else changes: on declarations of bindings it is Program.exec_stmt *)
-  Lemma exec_stmt_fixed33_agrees : forall s t,
-    binding_decl t = true -> is_rok (snd (exec_stmt eval s t)) = true ->
-    exec_stmt_fixed33 eval s t = exec_stmt eval s t.
-  Proof.
-    intros s t Hb Hok. destruct t as [e|e|]; try reflexivity.
-    destruct (eval (s_cfg s) e) as [o [st1 fr1]] eqn:E.
-    destruct o as [w| | | |].
-    2-5: rewrite (exec_stmt_SOut_fail _ _ _ _ E eq_refl) in Hok; discriminate.
-    destruct (exec_stmt_SOut_ok _ _ _ _ _ E Hb) as (x & v & Hn & Hl & Hx).
-    rewrite Hx. cbn [exec_stmt_fixed33]. rewrite E.
-    assert (decl_name_fixed33 e = Some x /\ lookup fr1 x = Some w) as [Hn' Hw].
-    { destruct e; cbn [binding_decl] in Hb; try discriminate; cbn [decl_name decl_name_fixed33] in *.
-      - apply negb_true_iff in Hb. split; [exact Hn|]. inversion Hn; subst. exact (eval_id _ _ _ _ E Hb).
-      - split; [exact Hn|]. inversion Hn; subst. exact (eval_assign _ _ _ _ _ E).
-      - rewrite eval_output in E.
-        destruct e; cbn [binding_decl] in Hb; try discriminate; cbn [decl_name decl_name_fixed33] in *.
-        + apply negb_true_iff in Hb. split; [exact Hn|]. inversion Hn; subst. exact (eval_id _ _ _ _ E Hb).
-        + split; [exact Hn|]. inversion Hn; subst. exact (eval_assign _ _ _ _ _ E). }
-    rewrite Hn'. assert (v = w) by congruence. subst v. reflexivity.
+      rewrite (exec_stmt_SOut_ok _ _ _ _ _ E) in *.
+      intros x Hx. change (decl_name (SOut e) = Some x) in Hx. rewrite Hx in *.
+      destruct (validate_portable st1 fr1 w); cbn [fst snd is_rok] in Hok; [|discriminate].
+      cbn [fst snd s_cfg s_outputs]. unfold out_insert. exists w.
+      rewrite rec_get_insert, String.eqb_refl. split; [reflexivity|].
+      eapply decl_binding_lookup; eauto.
   Qed.
 
   Lemma run_cons_ok : forall s t rest,
@@ -479,8 +449,23 @@ Section Outputs.
     congruence.
   Qed.
 
-  (* keys of the outputs object = declared names in first-declaration order (re-declaring a name
-     keeps its position), and every recorded value is the current binding of its name *)
+  (* keys of the outputs object = ALL declared names, in first-declaration order (re-declaring
+     a name keeps its position) — no side condition *)
+  Theorem outputs_keys_in_declaration_order : forall p s,
+    all_succeed eval s p ->
+    map fst (s_outputs (fst (run eval s p))) =
+      fold_left add_key (decl_names p) (map fst (s_outputs s)).
+  Proof.
+    induction p as [|t rest IH]; intros s Hall.
+    - reflexivity.
+    - cbn [all_succeed] in Hall. destruct Hall as [Hok Hrest].
+      rewrite run_cons_ok by exact Hok. rewrite (IH _ Hrest), (exec_stmt_keys s t Hok).
+      unfold decl_names. cbn [flat_map]. fold (decl_names rest).
+      destruct (decl_name t); reflexivity.
+  Qed.
+
+  (* when every declaration is of a binding (not inf / infinity / constants), every recorded
+     value is the current binding of its name *)
   Theorem outputs_in_declaration_order : forall p s,
     all_succeed eval s p -> forallb binding_decl p = true -> outs_bound s ->
     outs_bound (fst (run eval s p)) /\
@@ -1086,18 +1071,36 @@ Lemma evalD_hash_null_when_absent : forall release bi bu d c n r,
   evalD release bi bu d c (EDot (EId "inputs") n) = (Ok VNull, c).
 Proof. intros. eapply hash_null_when_absent; eauto. Qed.
 
-Lemma evalD_fixed33_agrees : forall release bi bu d s t,
-  binding_decl t = true -> is_rok (snd (exec_stmt (evalD release bi bu d) s t)) = true ->
-  exec_stmt_fixed33 (evalD release bi bu d) s t = exec_stmt (evalD release bi bu d) s t.
-Proof.
-  intros release bi bu d. apply exec_stmt_fixed33_agrees.
-  - apply evalD_output.
-  - apply evalD_assign.
-  - apply evalD_id.
-Qed.
-
 Lemma value_k_numbering_top : forall stdin flags maps,
   contributions [] 0 (sources stdin flags) = Some maps ->
   unnamed_names (sources stdin flags) maps =
   map value_key (seq 1 (length (unnamed_names (sources stdin flags) maps))).
 Proof. intros stdin flags maps. exact (value_k_numbering _ [] 0 maps). Qed.
+
+(* the keys statement at CLI level, for every evaluator and without side conditions *)
+Theorem cli_outputs_keys : forall eval m of stdin flags p,
+  cr_exit (cli_run eval m of stdin flags (Some p)) = Some 0 ->
+  exists inputs st,
+    read_inputs (stdin_for m stdin) flags = (Some inputs, st) /\
+    let final := fst (run eval (cli_session st inputs) p) in
+    one_object of (cli_run eval m of stdin flags (Some p)) (s_outputs final) /\
+    map fst (s_outputs final) = fold_left add_key (decl_names p) [] /\
+    NoDup (map fst (s_outputs final)).
+Proof.
+  intros eval m of stdin flags p H0.
+  pose proof (proj1 (exit0_iff_all_ok eval m of stdin flags (Some p)) H0)
+    as (Hm & inputs & st & q & R & Hq & Hall).
+  inversion Hq; subst q. exists inputs, st. split; [exact R|]. cbv zeta.
+  pose proof (outputs_keys_in_declaration_order eval p _ Hall) as Hkeys.
+  cbn [cli_session s_outputs map] in Hkeys.
+  repeat split.
+  - unfold cli_run. fold (stdin_for m stdin). rewrite R.
+    assert (run_script eval of (cli_session st inputs) p =
+            cli_emit of (s_outputs (fst (run eval (cli_session st inputs) p)))) as E.
+    { unfold run_script. pose proof (proj2 (run_first_stop eval p _) Hall) as F.
+      destruct (run eval (cli_session st inputs) p) as [s rs]. cbn [fst snd] in *. rewrite F. reflexivity. }
+    destruct m; try (exfalso; apply Hm; reflexivity); rewrite E; unfold cli_emit, one_object;
+      destruct of; cbn; auto.
+  - exact Hkeys.
+  - rewrite Hkeys. apply fold_add_key_NoDup. constructor.
+Qed.
